@@ -20,7 +20,7 @@ CONSTANTS B,        \* box edge (251 = 2.51 A)
           Offsets   \* the neighbour offsets enumerated by the code, a sequence of <<dx,dy,dz>>
 
 VARIABLES pos,      \* atom id -> <<x, y, z>>
-          el,       \* atom id -> "C" | "H" | "S" | "F"
+          el,       \* atom id -> "C" | "H" | "S" | "F" | "SE" (any other element: default criterion)
           order,    \* sequence of atom ids as handed to the function
           phase,    \* "insert" | "scan" | "done"
           k,        \* next index into order (insert phase)
